@@ -970,7 +970,7 @@ fn part3(rep: &Report, thorough: bool) -> Part3 {
                         rep.violation(
                             &format!("publish-entry:{init:?}:{}", script_txt.join(">")),
                             &format!("generate_all_circuit_binaries with publish faults [{}] from initial state {init:?}: {}", script_txt.join(", "), bad.join(" | ")),
-                            json!({"initial_state": format!("{init:?}"), "script": script_txt, "result": ex.result, "final_top_level": top_levels(&ex.tree)}),
+                            json!({"initial_state": format!("{init:?}"), "script": script_txt, "script_indices": taken, "result": ex.result, "final_top_level": top_levels(&ex.tree)}),
                         );
                     }
                     let devs: usize = taken.iter().filter(|&&a| a != 0).count();
@@ -994,6 +994,56 @@ fn part3(rep: &Report, thorough: bool) -> Part3 {
     st
 }
 
+/// --replay <file>: re-execute one recorded fault script (publish routine on its own, or
+/// through the entry point in a child process) and judge the final tree. No evidence is written.
+fn replay(path: &str) -> i32 {
+    let v: Value = serde_json::from_str(&std::fs::read_to_string(path).unwrap_or_else(|e| machinery_error(&format!("replay file {path}: {e}")))).unwrap_or_else(|e| machinery_error(&format!("replay file {path}: {e}")));
+    let key = v["key"].as_str().unwrap_or_else(|| machinery_error("replay file has no key"));
+    let parts: Vec<&str> = key.splitn(3, ':').collect();
+    let bad: Vec<String> = match parts.as_slice() {
+        ["publish", init, script] => {
+            let init = match *init {
+                "Absent" => Init::Absent,
+                "DirP" => Init::DirP,
+                "File" => Init::File,
+                x => machinery_error(&format!("unknown initial state {x}")),
+            };
+            let script: Vec<u32> = script.split('.').filter(|x| !x.is_empty()).map(|x| x.parse().unwrap_or_else(|_| machinery_error("bad script"))).collect();
+            let ex = run_publish(init, &mut Choices::new(script.clone()));
+            println!("publish from {init:?}, answers {script:?}: calls [{}] -> {:?}", ex.trace.join("; "), ex.outcome);
+            println!("final tree: {:?}", shape(&ex.tree));
+            judge(init, &ex)
+        }
+        ["publish-entry", init, _] => {
+            let init = match *init {
+                "Absent" => PubInit::Absent,
+                "DirP" => PubInit::DirP,
+                "File" => PubInit::File,
+                "DanglingSymlink" => PubInit::DanglingSymlink,
+                x => machinery_error(&format!("unknown initial state {x}")),
+            };
+            let script: Vec<u32> = v["case"]["script_indices"].as_array().map(|a| a.iter().filter_map(|x| x.as_u64().map(|y| y as u32)).collect()).unwrap_or_else(|| machinery_error("replay file has no script_indices"));
+            let r0 = pub_run(PubInit::Absent, &[]);
+            let reference: BTreeMap<String, usize> = files_of(&r0.tree, OUT_NAME).unwrap_or_default().into_iter().map(|(k, v)| (k, v.len())).collect();
+            let ex = pub_run(init, &script);
+            println!("generate_all_circuit_binaries from {init:?}, answers {script:?}: result {}", ex.result);
+            println!("final top level: {:?}", top_levels(&ex.tree));
+            judge_pub(init, &ex, &reference)
+        }
+        _ => machinery_error("replay: only publish / publish-entry fault scripts are replayable (stage-fault runs: re-run ./check C23 quick)"),
+    };
+    if bad.is_empty() {
+        println!("every oracle holds on the recorded script");
+        0
+    } else {
+        for b in &bad {
+            println!("  C23: {b}");
+        }
+        println!("VIOLATION property=C23 replay={path}");
+        1
+    }
+}
+
 fn main() {
     let args: Vec<String> = std::env::args().collect();
     if let Some(i) = args.iter().position(|a| a == "--pub-child") {
@@ -1003,6 +1053,9 @@ fn main() {
         gen_child(&args[i + 1..]);
     }
     quiet_panics();
+    if let Some(path) = arg_value("--replay") {
+        std::process::exit(replay(&path));
+    }
     let tier = tier_from_args();
     let thorough = tier == "thorough";
     let rep = Report::new("C23", "fault_enumeration", &tier);
